@@ -39,6 +39,9 @@ _mk_color("index", "color(", ")", "19" + ARABIC3, 4, ("thorough",), 1200)
 _mk_color("hexq", "#", "", "0g", 6, ("quick", "thorough"), 600)
 for _n in (5, 6, 7):
     _mk_color("hex", "#", "", "0fg", _n, ("thorough",), 2400)
+# hexadecimal words containing decimal digits outside ASCII (they match \d and int() accepts them, other converters may not)
+_mk_color("hexd", "#", "", "f" + ARABIC3, 6, ("quick", "thorough"), 600)
+_mk_color("hexd3", "#", "", "0f" + ARABIC3, 6, ("thorough",), 2400)
 for _n in (1, 2):
     _mk_color("free", "", "", "rgb(),#1", _n, ("quick", "thorough"), 600)
 _mk_color("free", "", "", "rgb(),#1", 3, ("thorough",), 1500)
